@@ -644,6 +644,41 @@ func observeRing(rb *container.RingBuffer[int], model []int, capN int, q *int64)
 			return fmt.Sprintf("ReverseRange stopping after %d yielded %v, model (newest first) %v", stop, rev, wr[:wc])
 		}
 	}
+	// callbacks that read the same buffer (they only read): each iteration, outer and inner, yields its own sequence
+	wr := slices.Clone(want)
+	slices.Reverse(wr)
+	for mode := 0; mode < 4; mode++ {
+		outer, inner := rb.Range, rb.ReverseRange
+		wo, wi := want, wr
+		if mode&1 == 1 {
+			outer, wo = rb.ReverseRange, wr
+		}
+		if mode&2 == 2 {
+			inner, wi = outer, wo
+		}
+		var got []int
+		bad := ""
+		outer(func(v int) bool {
+			got = append(got, v)
+			var in []int
+			inner(func(x int) bool { in = append(in, x); return true })
+			*q++
+			if !slices.Equal(in, wi) && bad == "" {
+				bad = fmt.Sprintf("an iteration started inside the callback of another one yielded %v, model %v", in, wi)
+			}
+			if rb.Len() != uint(n) && bad == "" {
+				bad = fmt.Sprintf("Len() inside a callback = %d, model %d", rb.Len(), n)
+			}
+			return true
+		})
+		*q++
+		if bad == "" && !slices.Equal(got, wo) {
+			bad = fmt.Sprintf("an iteration whose callback iterates over the same buffer (reading only) yielded %v, model %v", got, wo)
+		}
+		if bad != "" {
+			return fmt.Sprintf("[outer %s, inner %s] %s", []string{"Range", "ReverseRange"}[mode&1], []string{"the other direction", "the same direction"}[mode>>1], bad)
+		}
+	}
 	*q++
 	wantCur := 0
 	if capN > 0 && k >= capN {
